@@ -240,9 +240,11 @@ PAXOS_ALL = PAXOS_DEVS + PAXOS_PLAUSIBLE
 PAXOS_INVS = ["InvAgreement", "InvValidity", "InvFutureTruth", "InvFutureValid"]
 
 
-def paxos_consts(n=3, proposers="{1,2}", once=True, maxb=2, maxp=2, learn=False, quiet=False, dev=(), cut="{}"):
+def paxos_consts(n=3, proposers="{1,2}", once=True, maxb=2, maxp=2, learn=False, quiet=False, dev=(), cut="{}",
+                 lost="LostNone"):
     return {"N": n, "Proposers": proposers, "Once": tf(once), "MaxBallot": maxb, "MaxProposals": maxp,
-            "Loss": "FALSE", "Learn": tf(learn), "Quiet": tf(quiet), "Dev": dev_set(dev), "Cut": cut}
+            "Loss": "FALSE", "Learn": tf(learn), "Quiet": tf(quiet), "Dev": dev_set(dev), "Cut": cut,
+            "Lost": "<- " + lost}
 
 
 # n1 and n3 propose at any time (same ballot numbers), are partitioned from each other for the whole run and
